@@ -81,6 +81,9 @@ func scalarSort(t types.Type) (Sort, bool) {
 		if es, ok := scalarSort(u.Elem()); ok {
 			return arrSort(SInt, es), true
 		}
+		// arrays of non-scalars (e.g. the zero-length [0]sync.Mutex markers in generated
+		// protobuf code) are opaque
+		return SInt, true
 	case *types.TypeParam:
 		return SInt, true
 	}
@@ -261,4 +264,14 @@ func (u unsupportedErr) Error() string    { return "unsupported: " + string(u) }
 func sanitize(s string) string {
 	r := strings.NewReplacer(" ", "_", "|", "_", "\\", "_", "\"", "_", ";", "_", "(", "_", ")", "_")
 	return r.Replace(s)
+}
+
+// isOpaqueArr: arrays whose elements are not scalars are carried as one opaque term.
+func isOpaqueArr(t types.Type) bool {
+	a, ok := t.Underlying().(*types.Array)
+	if !ok {
+		return false
+	}
+	_, sc := scalarSort(a.Elem())
+	return !sc
 }
